@@ -1,7 +1,9 @@
 """C07 - Mode lifecycle is well-formed and leaves nothing behind.
 
 SUT: real ModeController / Mode / ConfigPlayers / mode devices of the machine in /verif/machines/c07
-(nine modes: plain, hi, lo, wq (use_wait_queue), dev (counters, accrual, timers, combo switch),
+(nine modes: plain, hi, lo, wq (use_wait_queue), dev (counters, accrual, timers, combo switch; delayed control events
+"event: 150ms" on the counters and the accrual, as on the shots/group/counter of gshots - a delayed one is followed by a
+stop of its mode inside the delay in half of the cases),
 players (event/variable/light/show/coil/queue_relay players, conditional and subscription entries),
 coded (custom Mode subclass registering delays, switch handlers, event handlers), gm (plain game mode), gshots (game mode
 with persisted devices: three shots (persist_enable default and off, start_enabled and enabled by event, delay_switch,
